@@ -1,7 +1,7 @@
 package main
 
 func init() {
-	for _, id := range []string{"C04", "C20"} {
+	for _, id := range []string{"C20"} {
 		notApplicable[id] = "not yet claimed: contracts for this property are still being written (see DESIGN.md); no check is registered"
 	}
 	notApplicable["C12"] = "command/response matching lives in goroutine, channel and timer interplay (onActiveEvent/onActiveRespondEvent/write); no sequential function contract within the verifier's subset carries the claim"
@@ -266,6 +266,21 @@ func init() {
 		Undecided: []string{
 			"the remaining two-way types: with length-prefixed or GBK text, lists and reflection (0x8103, 0x0104 terminal parameters, 0x0200/0x0704 with additional information, 0x9208, 0x1210, 0x9101, 0x9201, 0x9205, 0x9206, 0x1005, 0x1205, 0x0801, 0x0805, 0x8800, 0x0100) - their round-trip queries need string/byte copies through several heap versions and did not discharge within the quick budget, or hit arrays too large for the flattening encoding",
 			"GBK/UTF-8 conversion (uninterpreted in the model)",
+		},
+	})
+}
+
+func init() {
+	registerProp(&PropDef{
+		ID:    "C04",
+		Title: "Stream framing is independent of TCP segmentation",
+		Roots: []string{"service.(*packageParse).unpack"},
+		Decided: "per call of unpack, for every pending buffer and every read: each returned message carries exactly one frame (its raw bytes start and end with 0x7e and contain no other 0x7e), it owns those bytes (C09), " +
+			"it is the decoding of exactly those bytes (Decode's contract, C02), and when unpack returns without error no complete frame is left at the head of the pending bytes - a frame is delivered by the call in which its closing delimiter arrives, never later",
+		Undecided: []string{
+			"conservation and order: that the frames returned plus the bytes left pending are exactly the old pending bytes followed by the read (needs a sum over the returned messages; not built) - a change that drops or merges frames, e.g. a fast path that accepts two coalesced frames as one and fails to decode them, is not reported by these clauses",
+			"independence of the partition into reads, which follows from conservation by induction over the reads (pen and paper)",
+			"connection.reader's 1023-byte read loop (goroutine, socket)",
 		},
 	})
 }
